@@ -402,7 +402,8 @@ class Tensor:
         # the root gets its own buffer (same dtype as its data, never the caller's array);
         # a root that is a leaf accumulates like any other leaf
         seed = grad.data.astype(self.data.dtype)
-        self._grad = self._grad + seed if (self.is_leaf and self._grad is not None) else seed
+        # (np.asarray: the sum of two 0-d arrays is a NumPy scalar, which later in-place accumulation would rebind and promote)
+        self._grad = np.asarray(self._grad + seed, dtype=self.data.dtype) if (self.is_leaf and self._grad is not None) else seed
         for i, node in enumerate(reversed(ordered_nodes)):
             if node.grad_fn is not None:
                 #print(node.grad_fn)
